@@ -143,7 +143,7 @@ CLAIMED = {
          "(obligations tagged @C09 in the C05 and C04 units): the work-list walk over the blueprint tree in process_blueprint (measure: "
          "nested blueprints still to be processed, a recursive function over the schema), the breadth-first scope walks of "
          "ConstructibleDb::get and ErrorHandlersDb::get_or_try_bind (measure: upward paths from the queued scopes, on a graph whose parents "
-         "have smaller ids), the descent of ScopeBasedFallbackTree::find_fallback_id and every loop of the extracted rule checks."),
+         "have smaller ids) and the descent of ScopeBasedFallbackTree::find_fallback_id (a child comes after its parent)."),
    note=("NOT decided: termination of everything else, panic-freedom and 'at least one error diagnostic is printed' are properties of the whole 26 kLoC "
          "compiler behind App::build (Verus rejects its text, Kani proves no termination); a failing I/O operation half-way through "
          "GeneratedApp::persist (manifest written, lib.rs not) is outside the quantifier (it ranges over blueprints). No native replay: "
